@@ -41,7 +41,7 @@ def main(path):
         elif name == "model_replay":
             args = [drv[1], drv[2], drv[3], []]
         elif name == "resubmit":
-            name, args = "resubmit_scn", [drv[1], drv[2], drv[3]]
+            name, args = "resubmit_scn", [drv[1], drv[2], drv[3]] + ([drv[4]] if len(drv) > 4 else [])
         elif name == "resubmit_incomplete":
             tr = run.run_resubmit_incomplete(drv[1], drv[2], drv[3])
             name = None
